@@ -33,7 +33,22 @@ def main(argv=None):
     except runtime.HarnessError as e:
         print(f'HARNESS {e}')
         return 2
-    except Exception:
+    except Exception as e:
+        where = runtime._raised_in_library(e)
+        if where is not None and not args.replay:
+            if 'rep' not in locals():
+                rep = runtime.Report(prop, args.tier, seed, 'exploration')
+            # same rule as in the workers: an unhandled exception from pjplan's own code is a violation, not a harness error
+            rep.acc.violation(prop, f'library-exception/{type(e).__name__}/{where[0]}:{where[1]}',
+                              f'{type(e).__name__}: {e} raised in {where[0]}:{where[2]} ({where[1]})',
+                              {'traceback': ''.join(traceback.format_exception(type(e), e, e.__traceback__))[-1500:]})
+            rep.coverage.setdefault('evaluations', 1)
+            rep.coverage.setdefault('distinct_nontrivial', 2)
+            rep.coverage.setdefault('rule', 'run aborted by an exception raised inside the library')
+            rep.coverage.setdefault('states', 1)
+            rep.coverage.setdefault('transitions', 1)
+            rep.coverage.setdefault('traces_validated_against_impl', 0)
+            return rep.finish()
         print('HARNESS unexpected error in the checking machinery:')
         traceback.print_exc()
         return 2
